@@ -266,3 +266,35 @@ def _(graph: "Graph", vertex: "Node") -> "Seq[Path]":
         x in find_all_paths(graph, vertex, None) and
         not exists(lambda p: p in find_all_paths(graph, vertex, None) and len(x) < len(p)
                    and seq_eq(take(p, len(x)), x)))))
+
+
+# ---------------------------------------------------------------- all-reachable set
+@ghost
+def ProperPrefix(x: "Path", p: "Path") -> "Bool":
+    define(len(x) < len(p) and seq_eq(take(p, len(x)), x))
+
+
+bound(ps="Seq[Path]", mx="Path")
+
+
+@ghost
+def MaxPrefixLemma(ps: "Seq[Path]") -> "Bool":
+    """lean/MaxPrefix.lean (theorem exists_maximal_extension, checked by `lean` in the thorough tier): every member of a
+    finite list of sequences is, or is a proper prefix of, a member that is a proper prefix of no member.  (Induction on
+    the length deficit; the solver does no induction, so the statement enters as a lemma.)"""
+    axiom("holds-of-every-list", forall(lambda ps: MaxPrefixLemma(ps), triggers=[MaxPrefixLemma(ps)]))
+    axiom("max-extension", forall(lambda ps, x: implies(
+        MaxPrefixLemma(ps) and x in ps,
+        exists(lambda mx: mx in ps and (seq_eq(mx, x) or ProperPrefix(x, mx))
+               and not exists(lambda p: p in ps and ProperPrefix(mx, p)))), triggers=[(MaxPrefixLemma(ps), x in ps)]))
+
+
+@contract("src.graph_utils.find_all_reachable")
+def _(graph: "Graph", vertex: "Node") -> "Set[Node]":
+    """exactly the vertices that lie on a simple path starting at `vertex`"""
+    ensures("exact", forall(lambda n: (n in result) == exists(
+        lambda q: q in find_all_paths(graph, vertex, None) and n in q)))
+    local(res="Set[Node]")
+    entry_hint(lemma("finite-list", MaxPrefixLemma(find_all_paths(graph, vertex, None))))
+    with loop("0"):
+        invariant("union", forall(lambda n: (n in res) == exists(lambda k: 0 <= k and k < _i0 and n in _s0[k])))
